@@ -189,23 +189,23 @@ Qed.
 
 (* ------------------------------------------------------------------------------------------------ *)
 (* reduce *)
-Lemma reduce_loop_spec f l : forall v c,
-  reduce_loop f v l c = (repeat Call (length l), fold_left f l v, match l with [] => c | _ :: _ => true end).
+Lemma reduce_loop_spec f l : forall v,
+  yields (fst (reduce_loop f v l)) = [] /\ snd (reduce_loop f v l) = fold_left f l v /\
+  hd_error (fst (reduce_loop f v l)) = Some Nx.
 Proof.
-  induction l as [|x r IH]; intros v c; cbn [reduce_loop]; [reflexivity|].
-  rewrite IH. cbn. destruct r; reflexivity.
+  induction l as [|x r IH]; intros v; cbn [reduce_loop]; [auto|].
+  destruct (IH (f v x)) as (Y & S & _). destruct (reduce_loop f (f v x) r) as [ev v']. cbn in *. auto.
 Qed.
 
-Lemma yields_repeat_call {A} n : yields (repeat (@Call A) n) = [].
-Proof. induction n; cbn; auto. Qed.
-
-Theorem reduce_agrees : forall f initial s, outcome (reduce_model f initial s) = reduce_spec f initial (snd s).
+Theorem reduce_agrees : forall f initial s, outcome (reduce_model f initial s false) = reduce_spec f initial (snd s).
 Proof.
   intros f initial [k l]. unfold outcome, reduce_model, reduce_spec. cbn [snd].
   destruct initial as [i|].
-  - rewrite reduce_loop_spec. cbn [fst snd]. ysimp. now rewrite yields_repeat_call.
+  - destruct (reduce_loop_spec f l i) as (Y & S & _). destruct (reduce_loop f i l) as [ev v]. cbn [fst snd] in *.
+    cbn [yields]. rewrite yields_app, Y. cbn. now rewrite S.
   - destruct l as [|x r]; [reflexivity|].
-    rewrite reduce_loop_spec. cbn [fst snd]. ysimp. now rewrite yields_repeat_call.
+    destruct (reduce_loop_spec f r x) as (Y & S & _). destruct (reduce_loop f x r) as [ev v]. cbn [fst snd] in *.
+    cbn [yields]. rewrite yields_app, Y. cbn. now rewrite S.
 Qed.
 
 (* groupby *)
@@ -979,22 +979,35 @@ Proof.
     + revert H. ysimp. discriminate.
 Qed.
 
-(* reduce: documented scope - the awaited callback is itself obliged to checkpoint; reduce's own checkpoint covers
-   the case in which the callback is never awaited *)
+(* reduce (after the F22 fix), at full strength - for EVERY callback, source kind and initial value:
+   the very first event is the cancellation check (nothing is consumed and the callback is not called before it),
+   an error-free call really yields to the event loop (cancel_shielded_checkpoint), and when the caller's scope is
+   already cancelled the check raises and nothing at all is consumed or called *)
 Theorem reduce_checkpoints : forall f initial s,
-  snd (reduce_model f initial s) = None ->
-  (has_ck (fst (reduce_model f initial s)) = true \/ has_call (fst (reduce_model f initial s)) = true) /\
-  (has_call (fst (reduce_model f initial s)) = false -> has_ck (fst (reduce_model f initial s)) = true).
+  hd_error (fst (reduce_model f initial s false)) = Some CkIf /\
+  (snd (reduce_model f initial s false) = None -> has_yield (fst (reduce_model f initial s false)) = true).
 Proof.
   intros f initial [k l]. unfold reduce_model. cbn [snd].
-  destruct (match initial with
-            | Some i => Some (i, l)
-            | None => match l with [] => None | x :: r => Some (x, r) end
-            end) as [[v0 rest]|]; [|discriminate].
-  rewrite reduce_loop_spec. cbn [fst snd]. intros _.
-  destruct rest as [|x r]; cbn; auto.
-  split; [now right|discriminate].
+  destruct initial as [i|].
+  - destruct (reduce_loop f i l) as [ev v]. cbn. split; [reflexivity|]. intros _.
+    unfold has_yield. rewrite existsb_app. cbn. apply orb_true_r.
+  - destruct l as [|x r]; [cbn; split; [reflexivity|discriminate]|].
+    destruct (reduce_loop f x r) as [ev v]. cbn. split; [reflexivity|]. intros _.
+    unfold has_yield. rewrite existsb_app. cbn. apply orb_true_r.
 Qed.
+
+Theorem reduce_cancelled : forall f initial s,
+  reduce_model f initial s true = ([CkIf], Some Cancelled) /\
+  has_next (fst (reduce_model f initial s true)) = false /\ has_call (fst (reduce_model f initial s true)) = false.
+Proof. intros. repeat split. Qed.
+
+(* the shape before the fix does violate the clause: a reducer that never yields, called at least once, leaves a
+   trace without any checkpoint event (pinned witness) *)
+Theorem reduce_pre_F22_refuted_pinned :
+  exists f initial s, snd (reduce_model_pre_F22 f initial s) = None /\
+                      has_ck (fst (reduce_model_pre_F22 f initial s)) = false /\
+                      has_call (fst (reduce_model_pre_F22 f initial s)) = true.
+Proof. exists Z.add, None, (KSync, [1; 2; 3]%Z). vm_compute. auto. Qed.
 
 (* zip_longest *)
 Lemma zl_round_none_ck fill : forall its na ev, zl_round fill its na false = (ev, None) -> has_ck ev = true.
@@ -1102,11 +1115,13 @@ Example zip_longest_ex : outcome (zip_longest_model 9 [(KSync, [1; 2; 3]); (KAsy
   ([[1; 4]; [2; 9]; [3; 9]], None) /\
   fst (zip_longest_model 9 [(KAsync, []); (KAsync, [])]) = [Ck] /\ fst (zip_longest_model 9 []) = [Ck].
 Proof. vm_compute. auto. Qed.
-Example reduce_ex : reduce_model Z.add None (KSync, [1; 2; 3]) = ([Call; Call; Yield 6], None) /\
-  reduce_model Z.add (Some 5) (KSync, []) = ([Ck; Yield 5], None) /\
-  reduce_model Z.add None (KAsync, [4]) = ([Ck; Yield 4], None) /\
-  reduce_model Z.add None (KSync, []) = ([], Some TypeError).
-Proof. vm_compute. auto. Qed.
+Example reduce_ex : reduce_model Z.add None (KSync, [1; 2; 3]) false =
+    ([CkIf; Nx; Nx; Call; Nx; Call; Nx; Sh; Yield 6], None) /\
+  reduce_model Z.add (Some 5) (KSync, []) false = ([CkIf; Nx; Sh; Yield 5], None) /\
+  reduce_model Z.add None (KAsync, [4]) false = ([CkIf; Nx; Nx; Sh; Yield 4], None) /\
+  reduce_model Z.add None (KSync, []) false = ([CkIf; Nx], Some TypeError) /\
+  reduce_model Z.add None (KSync, [1; 2]) true = ([CkIf], Some Cancelled).
+Proof. vm_compute. repeat split. Qed.
 Example oracle_ex :
   combs [1; 2; 3] 2 = [[1; 2]; [1; 3]; [2; 3]] /\
   cwr 2 [1; 2] = [[1; 1]; [1; 2]; [2; 2]] /\
